@@ -1,7 +1,7 @@
 """Failing-input search for C09 on the real code: expanding Bloom growth bookkeeping."""
 import core
 from corr.bloom import strategy
-from search.common import drive, keys_pool, noise_touch, shrink_ops
+from search.common import drive, keys_pool, make_twin, noise_touch, shrink_ops
 
 
 def gen(rng):
@@ -36,7 +36,7 @@ def check(case):
         return None
     calls = effective = 0
     pushed = False
-    twin = ExpandingBloomFilter(est_elements=est + 2, false_positive_rate=min(0.9, case["fpr"] * 2), hash_function=fn) if not case.get("sweep") else None
+    twin = make_twin(lambda: ExpandingBloomFilter(est_elements=est + 2, false_positive_rate=case["fpr"] * 0.6, hash_function=fn)) if not case.get("sweep") else None
     for step, op in enumerate(case["ops"]):
         noise_touch(twin, step)
         if op[0] == "add":
